@@ -23,6 +23,8 @@ CHECKS = {
          "Several clients with different protocol versions and compressions interleave USE (valid, quoted, mixed-case, missing, refused by one host) with tokenised requests, including several clients switching to the same keyspace in one scheduling window; for every request the fake backend's view of the carrying connection (keyspace of its last USE, STARTUP version, compression) must equal the per-client model, and USE replies must name the keyspace as the backend does or carry the backend's error.", "§7 C07"),
  "C14": ("deterministic simulation: connect/register/disconnect histories against schema, topology and status events with control-connection kills; per-client delivery-count oracle with an explicit ambiguity window",
          "Clients register for subsets of event types, disconnect and reconnect while fake backends emit schema (all targets), topology and status events on the current control connection and the control connection is killed and fails over; each event the proxy fully read must reach every client whose schema REGISTER was answered before emission and that is still connected exactly once with equal content, never twice, never an unregistered client, and no topology/status event may reach any client.", "§7 C14"),
+ "C16": ("deterministic simulation in simulated hours: node add/remove/restart, pool and control connection loss, stalled nodes on the fake clock; bounded-liveness oracles after the last fault, dial-gap and outage-clock oracles; native sweep of the back-off calculator",
+         "Fault sequences (node additions, removals, restarts, event bursts, host outages, pooled/control connection kills single and simultaneous, nodes that stop answering heartbeats) run over minutes to hours of simulated time; after the last fault, within the sum of the configured timeouts, probe requests must be served by exactly the backend's current cluster, removed nodes are no longer dialled, lost connections are replaced with dial gaps inside the back-off bounds that restart near the base after success, unresponsive connections are closed within idle+heartbeat+connect timeout, the control connection fails over, and OutageDuration is zero exactly while a control connection exists. The back-off calculator is swept natively over base/max configurations and 80 attempts.", "§7 C16"),
 }
 
 NOT_APPLICABLE = {
